@@ -1,6 +1,6 @@
 # C19 — general expression parser (lexer, Pratt parser, constant folding, Display):
 # generators, an independent reference reader + exact-rational evaluator (the oracle),
-# comparison with the extracted model, classification of the known findings F16*.
+# comparison with the extracted model, classification of the remaining known findings (F16e/f residues, F16j).
 import hashlib
 import itertools
 import sys
@@ -33,9 +33,11 @@ TRUSTED = ['extraction of the float instance (ExtrOcamlBasic, ExtrOCamlFloats, E
            'fmt_float (Model/Expr.v) = Rust `{}` of f64 on numbers with <= 15 significant decimal digits (measured)']
 ASSUMPTIONS = ['theorems are about the R instance; numbers of tokens are reals there',
                'binding powers 0..5 (f64 in the code) are modelled as natural numbers (only compared and incremented)',
-               'the conventional reading is Model/RefExpr.v: % and an explicit · are product-level operators, a unary minus '
-               'applies to the following juxtaposition/power unit, ^ is left-associative (unit test '
-               'test_valid_multiple_exponents), "log" is the decimal logarithm']
+               'the conventional reading is Model/RefExpr.v: a unary minus applies to the following juxtaposition/power '
+               'unit, a signed exponent is a signed atom (2^-x^2 = (2^-x)^2), ^ is left-associative (unit test '
+               'test_valid_multiple_exponents), "log" is the decimal logarithm',
+               '% and an explicit · are outside the operator list of the property: inputs containing them are compared '
+               'with the model (correspondence) but not judged by the oracle']
 EXHAUSTIVE = True
 
 OPS = {'Add': '+', 'Sub': '-', 'Div': '/', 'Mul': '*', 'CDot': '·', 'Rem': '%', 'Caret': '^', 'Fac': '!'}
@@ -530,34 +532,7 @@ def judge(case, impl):
     return ' | '.join(v) if v else None
 
 
-# ------------------------------------------------------------------ known findings (F16*), keyed on syntactic classes
-def py_fold(e):
-    """mirror of fold_operations, used only to recognise the class of F16d"""
-    if e[0] != 'B':
-        return e
-    _, op, p, l, r = e
-    l, r = py_fold(l), py_fold(r)
-    z = lambda t, c: t[0] == 'N' and t[1] == c
-    if op == 'Mul' and (z(l, 0.0) or z(r, 0.0)):
-        return ('N', 0.0)
-    if op == 'Caret' and z(r, 0.0):
-        return ('N', 1.0)
-    kp = lambda t: ('B', t[1], True, t[3], t[4]) if (p and t[0] == 'B') else t
-    if op == 'Caret' and z(l, 0.0) and r[0] == 'N':
-        return ('N', 0.0)
-    if op == 'Add' and z(l, 0.0):
-        return kp(r)
-    if op == 'Add' and z(r, 0.0):
-        return kp(l)
-    if op == 'Sub' and z(r, 0.0):
-        return kp(l)
-    if op == 'Sub' and z(l, 0.0):
-        return ('P', 'Sub', py_fold(r))
-    if op == 'Div' and z(r, 1.0):
-        return kp(l)
-    return ('B', op, p, l, r)
-
-
+# ------------------------------------------------------------------ known findings (Display only), keyed on syntactic classes
 def subtrees(e):
     yield e
     if e[0] in 'FPQ':
@@ -1041,10 +1016,13 @@ def gen_trees(rng, tier):
                 continue
             yield Case(text_line(txt), cls, {'src': s, 'text': txt})
             yield Case(text_line(txt, 'c'), cls, None)
-    # the letter e inside a run of letters is a variable
-    for txt in ('xe', 'xe+1', '2xe', 'ex', 'ye^2', '(xe)', 'exe'):
-        yield Case(text_line(txt), 'tree-minimal', None)
-        yield Case(text_line(txt, 'c'), 'tree-minimal', None)
+    # fixed cases: the replays of the former findings F16a-l (now regression cases) and of the remaining ones
+    for txt in ('xe', 'xe+1', '2xe', 'ex', 'ye^2', '(xe)', 'exe',
+                'x/-y*z', '2^-x*y', 'sin(x)^2', 'sin(x)!', '(0+a*b)^2', '(x+y-0)*z', '0^x', '0^(1-1)', '(-x)^2', '(-a)!',
+                '2*(-x)^2', 'x^(0-1)^y', '5*2^3', 'pi', '2pi', 'tau+phi+e', '(sin(x))^2', '2^-x^2', '2^-2x', '-x^2', '-2x!',
+                'a/(-b*c)', 'x^(-y^z)', 'a/(0-b*c)', '5*2!^3', '5*2^3^4', 'x/yz', '2/-xx', 'a/2(x+1)', 'x/2sin(y)'):
+        yield Case(text_line(txt), 'tree-fixed', None)
+        yield Case(text_line(txt, 'c'), 'tree-fixed', None)
 
 
 ALPHABET = list('0123456789..xyzabeEpi') + ['sin', 'cos', 'tan', 'cot', 'log', 'ln', 'pi', 'tau', 'phi', 'e', 'SIN', 'Pi'] + \
